@@ -88,7 +88,7 @@ def kani_run(crate, target, harness, log, playback=False):
     """-> (returncode or 'timeout', wall seconds); full output in `log`"""
     cmd = ["cargo", "kani"] + KANI_FLAGS + ["--target-dir", target, "--harness", "harnesses::" + harness, "--exact"]
     if playback:
-        cmd += ["-Z", "concrete-playback", "--concrete-playback=print"]
+        cmd += ["-Z", "concrete-playback", "--concrete-playback=print", "--no-assertion-reach-checks"]
     else:
         cmd += KANI_RUN_FLAGS
     t = time.time()
@@ -167,7 +167,7 @@ def parse_playback(text):
         vals = []
         for v in re.findall(r"vec!\[([\d, ]*)\]", body):
             vals.append([int(x) for x in v.replace(" ", "").split(",") if x != ""])
-        out.setdefault(desc, vals)
+        out.setdefault(desc.strip('"'), vals)
     return out
 
 
@@ -489,6 +489,7 @@ def oracle_validation(manifest, binary, per_unit=10):
     recs = native_batch(binary, reqs)
     work = [(m, r) for m, r in zip(meta, recs) if r["status"] == "emitted" and not r["mismatch"]]
     stats = {"tuples": len(reqs), "emitted": sum(1 for r in recs if r["status"] == "emitted"),
+             "outside_assumed_range": sum(1 for r in recs if r["status"] == "assumption_violated"),
              "refused": sum(1 for r in recs if r["status"] == "refused"),
              "decoder_mismatch_left_to_kani": sum(1 for r in recs if r["status"] == "emitted" and r["mismatch"]),
              "compared_with_llvm_mc": 0, "disagreements": []}
@@ -586,6 +587,7 @@ def main(tier):
         failing = []          # (group, unit name)
         discharged = 0
         vacuous = []
+        refusal_only_ok = []
         refusals = {}
         for g in groups:
             r = results[g["name"]]
@@ -613,6 +615,10 @@ def main(tier):
                 if st == "SUCCESS":
                     if wit == "SATISFIED":
                         discharged += 1
+                    elif units[un].get("refusal_only") and wit == "UNSATISFIABLE":
+                        # e.g. jmp_near over >= 128 bytes: refusing every tuple is what is required
+                        discharged += 1
+                        refusal_only_ok.append(un)
                     else:
                         vacuous.append(un)
                 elif st == "FAILURE":
@@ -711,6 +717,7 @@ def main(tier):
             "restricted_to": manifest.get("restricted_to") or None,
             "harnesses": len(groups),
             "failing_units": [u for _, u in failing],
+            "refusal_only_units_all_refused": refusal_only_ok,
             "counterexamples": cex_info,
             "known_findings_hit": [k for k, _ in rep.known_hit],
             "inconclusive": inconclusive,
